@@ -37,15 +37,36 @@ Theorem C05_face_exact :
     forall prior : rendition, rt_apply t prior = face_rendition f.
 Proof. exact c05_face_exact_thm. Qed.
 
-(* 3. REDUCED DEPTHS select one palette entry per colour. *)
+(* 3. REDUCED DEPTHS select one palette entry per colour, for every role.
+      Face: foreground and background each become CIdx of ONE entry (pal256 c under
+      EightBit, the system colour of the grey level under Gray) or stay default; the
+      underline colour is the default one. *)
 Theorem C05_face_reduced :
   forall (pal256 gray4 : rgba -> N), (forall c, pal256 c < 256) ->
-  forall (cp : caps) (f : face) (c : rgba), cmd_ok (Face f) = true ->
-  cp_depth cp <> TrueColor -> f_fg f = Some c ->
-  exists bs t n, encode pal256 gray4 cp (Face f) = Ok bs /\ vt_ops bs = [OSgr t] /\
-    (forall prior, r_fg (rt_apply t prior) = CIdx n) /\
-    n = match cp_depth cp with EightBit => pal256 c | _ => gray_entry (gray4 c) end.
+  forall (cp : caps) (f : face), cmd_ok (Face f) = true -> cp_depth cp <> TrueColor ->
+  exists bs t, encode pal256 gray4 cp (Face f) = Ok bs /\ vt_ops bs = [OSgr t] /\
+    forall prior,
+      r_fg (rt_apply t prior) = reduced_colour pal256 gray4 (cp_depth cp) (f_fg f) /\
+      r_bg (rt_apply t prior) = reduced_colour pal256 gray4 (cp_depth cp) (f_bg f) /\
+      r_ulc (rt_apply t prior) = CDefault.
 Proof. exact c05_face_reduced_thm. Qed.
+
+(*    FaceModify: every NAMED colour (fg, bg, underline) becomes one entry, an unnamed one is
+      untouched (or reset); under Gray the underline colour is dropped -- the encoder sends
+      nothing for it, which the specification records as "no grey rendering of an underline
+      colour" (Denote.colour_of). *)
+Theorem C05_facemodify_reduced :
+  forall (pal256 gray4 : rgba -> N), (forall c, pal256 c < 256) ->
+  forall (cp : caps) (m : facemod), cmd_ok (FaceModify m) = true -> cp_depth cp <> TrueColor ->
+  exists bs, encode pal256 gray4 cp (FaceModify m) = Ok bs /\
+    let t := fm_trans pal256 gray4 (cp_depth cp) m in
+    let base := if fm_reset m then rt_reset else rt_id in
+    let idx (c : option rgba) := option_map (fun c => CIdx (reduced_entry pal256 gray4 (cp_depth cp) c)) c in
+    vt_ops bs = (if rtrans_is_id t then [] else [OSgr t]) /\
+    t_fg t = over (idx (fm_fg m)) (t_fg base) /\
+    t_bg t = over (idx (fm_bg m)) (t_bg base) /\
+    t_ulc t = match cp_depth cp with Gray => t_ulc base | _ => over (idx (fm_ucolor m)) (t_ulc base) end.
+Proof. exact c05_facemodify_reduced_thm. Qed.
 
 (* 4. SELF-CONTAINED: after every command the parser is in its initial state ... *)
 Theorem C05_selfcontained :
